@@ -231,6 +231,8 @@ type FanSpec struct {
 	ByIndex bool `json:"byIndex,omitempty"`    // select by index instead of rpmChannel
 	// cmd fans: no getRpm script
 	StartDelay Dur `json:"startDelay,omitempty"` // controller start delay (C16)
+	// HomeRelRpm (file fans): the configured rpmPath starts with "~"
+	HomeRelRpm bool `json:"homeRelRpm,omitempty"`
 	// NoGetPwm: a cmd fan configured with setPwm only (rejected by the validator: only for harness-built configurations)
 	NoGetPwm bool `json:"noGetPwm,omitempty"`
 }
